@@ -14,5 +14,7 @@ let handle = function
   | ["cmp"; n1; m1; n2; m2] ->
       let a = (bytes_of_hex n1, z_of_hexint m1) and b = (bytes_of_hex n2, z_of_hexint m2) in
       ord (py_tree_cmp a b) ^ " " ^ ord (rs_tree_cmp a b)
+  | ["blocks"; d] -> let bs = count_blocks (bytes_of_hex d) in
+      if bs = [] then "_" else String.concat "," (List.map hex_of_bytes bs)
   | _ -> "EXN bad request"
 let () = serve handle
